@@ -106,6 +106,15 @@ class MetadataManager:
                             self.HINT_PATH, metadata_file.encode("utf-8"), etag=None
                         )
                     except CASConflictError as e:
+                        # The loser's v0 file must not stay next to the winner's:
+                        # hint-less recovery could pick it (same version number).
+                        try:
+                            self.storage.delete_file(metadata_path)
+                        except Exception as cleanup_error:
+                            logger.warning(
+                                f"Could not remove losing initial metadata {metadata_path}: "
+                                f"{cleanup_error}"
+                            )
                         raise TableExistsError(
                             f"Table at {self.table_path} was concurrently initialized"
                         ) from e
